@@ -83,4 +83,62 @@ theorem dequeue_limit_matches_source (cands : List Proposal) (n : Nat) :
   · rename_i h; rw [List.take_of_length_le (Nat.le_of_lt h), List.take_of_length_le (Nat.le_refl _)]
   · rfl
 
+/-! ### decision trees: the order of the tests, the nesting, the arms and the exits are the source's -/
+
+/-- `Enqueue`, body of the loop over the new proposals: the model skips a proposal exactly when the regenerated
+tree takes exit 1 (`continue`) — i.e. the record is looked up first, the block comparison is tested only for a
+queued work id, and everything else falls through to the insertion. -/
+theorem enqueue1_tree_matches_source (now : Nat) (q : Queue) (p : Proposal) :
+    enqueue1 now q p =
+      (let queued := (q.get p.workID).isSome
+       let queuedBlock := match q.get p.workID with | some ex => ex.proposal.trigger.blockNumber | none => 0
+       if Gen.Src.c11EnqueueTree queued queuedBlock p.trigger.blockNumber = 1 then q
+       else q.set p.workID { proposal := p, removed := false, createdAt := now }) := by
+  unfold enqueue1
+  cases hg : q.get p.workID with
+  | none => simp [Gen.Src.c11EnqueueTree]
+  | some ex =>
+    by_cases hge : ex.proposal.trigger.blockNumber ≥ p.trigger.blockNumber <;>
+      simp [Gen.Src.c11EnqueueTree, hge]
+
+/-- `Dequeue`, body of the first loop (over the records): expiry is tested first (exit 1: delete and `continue`),
+then the dequeued flag (exit 2: `continue`); only then the type decides whether the record becomes a candidate. -/
+theorem dequeueScan_tree_matches_source (tg : String → Nat) (t now : Nat) (k : String) (ks : List String) (q : Queue)
+    (acc : List Proposal) (r : QRec) (hg : q.get k = some r) :
+    dequeueScan tg t now (k :: ks) q acc =
+      match Gen.Src.c11DequeueScanTree (qExpired now r) r.removed (tg r.proposal.upkeepID) t with
+      | 1 => dequeueScan tg t now ks (q.del r.proposal.workID) acc
+      | 2 => dequeueScan tg t now ks q acc
+      | _ => if tg r.proposal.upkeepID = t then dequeueScan tg t now ks q (acc ++ [r.proposal])
+             else dequeueScan tg t now ks q acc := by
+  rw [dequeueScan, hg]
+  simp only [Gen.Src.c11DequeueScanTree]
+  cases he : qExpired now r <;> cases hr : r.removed <;> by_cases ht : tg r.proposal.upkeepID = t <;> simp [ht]
+
+/-- `ViewProposals`: the switch on the upkeep type — log recovery first, conditional second, anything else `nil` -/
+theorem viewProposals_tree_matches_source (t now : Nat) (s : MStore) :
+    s.viewProposals t now =
+      match Gen.Src.c11ViewProposalsTree t with
+      | 1 => ((s.log.view Gen.logRecoveryExpiryNs now).1, { s with log := (s.log.view Gen.logRecoveryExpiryNs now).2 })
+      | 2 => ((s.cond.view Gen.conditionalExpiryNs now).1, { s with cond := (s.cond.view Gen.conditionalExpiryNs now).2 })
+      | _ => ([], s) := by
+  unfold MStore.viewProposals
+  simp only [Gen.Src.c11ViewProposalsTree, logT, condT]
+  by_cases h1 : t = 1
+  · simp [h1]
+  · by_cases h0 : t = 0
+    · simp [h0]
+    · simp [h1, h0]
+
+/-- `coordinatedProposalsTick.Value`: with a queue, what a tick hands on is decided by the error tests alone — an
+error (exits 2, 3: `return nil, err`) hands on nothing, otherwise the built payloads are returned at the last
+statement (exit 4); there is no other way out of the function.  (The translator gives both `err != nil` tests one
+parameter; the model's tick has one failure, the payload builder's.) -/
+theorem tick_tree_matches_source (tg : String → Nat) (st : St) (t n : Nat) (order : List String) (ok : Bool) :
+    stepOut tg st (.tick t n order ok) =
+      match Gen.Src.c11TickValueTree false (!ok) with
+      | 4 => some (dequeue tg t n st.now order st.q).1
+      | _ => some [] := by
+  cases ok <;> simp [stepOut, Gen.Src.c11TickValueTree]
+
 end AutoVerif.C11
